@@ -29,6 +29,7 @@ NOT_IN_LINEAGE = "first column's table is not in table lineage as source or inte
 NOT_CONNECTED = "table graph does not connect the first column's table to the last column's table"
 LAST_NOT_TARGET = "last column's table is neither target nor intermediate"
 OWNER_EDGE = "HAS_COLUMN edge from a node that is not the column's owner"
+HOLDER_NOT_PROJ = monitor.HOLDER_NOT_PROJ   # the statement-level form of NOT_IN_LINEAGE (hypothesis HolderOK of Props.C06.fold_projects)
 
 RE_RENAME = re.compile(r"(?is)\balter\s+table\s+([^\s;]+)\s+rename\s+to\s+([^\s;]+)|\brename\s+table\s+([^\s;]+)\s+to\s+([^\s;,]+)")
 RE_LATERAL = re.compile(r"(?is)\blateral\s+view\s+(?:outer\s+)?[\w.]+\s*\(.*?\)\s*(\w+)\s+as\b")
@@ -74,15 +75,15 @@ def classify(f, sql_text, ast=None, d11_names=None, dialect=None):
         if names and any(t in names for t in tabs):
             return "D33"
     # D32: a qualifier that names no table of the statement (LATERAL VIEW alias): `Table(qualifier)` fallback
-    if cls == NOT_IN_LINEAGE:
+    if cls in (NOT_IN_LINEAGE, HOLDER_NOT_PROJ):
         aliases = {m.group(1).lower() for m in RE_LATERAL.finditer(sql_text)}
         if aliases and any(t in aliases for t in tabs):
             return "D32"
     # D1p: the sqlparse analyser still loses the relations after a comma that follows an explicit JOIN (D1, repaired for sqlfluff only)
-    if cls in (NOT_IN_LINEAGE, NOT_CONNECTED) and dialect == "non-validating" and ast is not None and any(mixes_comma_and_join(s) for s in ast):
+    if cls in (NOT_IN_LINEAGE, NOT_CONNECTED, HOLDER_NOT_PROJ) and dialect == "non-validating" and ast is not None and any(mixes_comma_and_join(s) for s in ast):
         return "D1p"
     # D2: subquery inside a select item: its columns are column sources but its tables are not in table lineage
-    if cls in (NOT_IN_LINEAGE, NOT_CONNECTED):
+    if cls in (NOT_IN_LINEAGE, NOT_CONNECTED, HOLDER_NOT_PROJ):
         if (ast is not None and any(gensql.item_has_subq(s) for s in ast)) or (ast is None and RE_ITEM_SUBQ.search(sql_text)):
             return "D2"
     # D11: unresolved same-named columns of different statements are one node
@@ -404,7 +405,7 @@ def part_texts(chk, st, enum):
         rec = {"sql": sql, "dialect": d, "metadata": None, "name": "text/" + tid}
         fails = r["fails"]
         fid = TEXT_FINDINGS.get(tid)
-        if fid and chk.finding(fid) and fails and all(f["class"] in (NOT_IN_LINEAGE, NOT_CONNECTED) for f in fails):
+        if fid and chk.finding(fid) and fails and all(f["class"] in (NOT_IN_LINEAGE, NOT_CONNECTED, HOLDER_NOT_PROJ) for f in fails):
             chk.known(fid)
             st.c["known:" + fid] += 1
             fails = []
@@ -428,7 +429,7 @@ def replay_known(chk, st):
         stmts = w["sql"] if isinstance(w["sql"], list) else split_statements(w["sql"], w.get("dialect", "ansi"))
         d11 = d11_names_of(stmts, w.get("dialect", "ansi")) if e["id"] == "D11" else None
         ids = {classify(f, sql_text, [w["ast"]] if w.get("ast") else None, d11, w.get("dialect", "ansi")) for f in fails}
-        if e["id"] in TEXT_FINDINGS.values() and fails and all(f["class"] in (NOT_IN_LINEAGE, NOT_CONNECTED) for f in fails):
+        if e["id"] in TEXT_FINDINGS.values() and fails and all(f["class"] in (NOT_IN_LINEAGE, NOT_CONNECTED, HOLDER_NOT_PROJ) for f in fails):
             ids.add(e["id"])
         if e["id"] in ids:
             chk.known(e["id"])
@@ -457,12 +458,15 @@ def run(chk):
     sqlimpl.close_pool()
     chk.coverage.update({"exhaustive": False, "distribution": st.as_dict(), "statement_dialects": stmt_dialects,
                          "chain_dialects": chain_dialects})
-    chk.assumptions += ["the projection onto table lineage and node retrievability are checked on implementation results (monitor), "
-                        "not proved: they depend on the extractors / on Python object identity",
+    chk.assumptions += ["the projection onto table lineage is proved for every history of holders that satisfy Projection.HolderOK "
+                        "(Props.C06.fold_projects) and, at statement level, for the flat write fragment only; HolderOK is evaluated on the "
+                        "implementation's statement holders of every input (monitor.check_holders); outside the fragment the projection and "
+                        "node retrievability (Python object identity) are checked on implementation results, not proved",
                         "text -> tree (sqlfluff / sqlparse) is not modelled"]
     return chk.finish(
         level="proof",
         rule="C06 monitor (every path edge by edge, roots/leaves, >= 1 hop, no repeated node, projection onto table roles and table graph, "
+             "HolderOK of every statement holder, "
              "node retrievability by eq/hash incl. rebuilt objects, single owner) on every result of: harvested test-suite corpus (all "
              "its dialects + sqlparse; quick: a seeded half of the sqlparse duplicates) + 99 TPC-DS queries; enumerate_shapes + seeded "
              "random statements under the listed dialects; C04's chained scripts with/without provider; paths of generated inputs also "
